@@ -46,6 +46,9 @@ GEN = {
         ("oper2x5", dict(MaxLen=5, LeafNames={"xt", "a"}, OpNames={"ddt", "isum", "iprod", "sumk", "mul2"})),
         # non-square dense matrices, read back structurally (rows of elements)
         ("matrix7", dict(MaxLen=7, LeafNames={"a", "b", "n2"}, OpNames={"mat23", "mat32", "mat13", "mat31"})),
+        # declared functions named like functions with a notation of their own (beta, gamma, Abs, log, zeta, Max)
+        ("named4", dict(MaxLen=4, LeafNames={"a", "b", "n2"},
+                        OpNames={"dbeta", "dgam1", "dgam2", "dabs", "dlog1", "dlog2", "dzeta", "dmax", "mul2", "add2", "sq"})),
         # floating-point literals incl. scientific notation with decimal exponents that are multiples of ten
         ("float4", dict(MaxLen=4, LeafNames={"f10", "f20", "fh", "fs", "a"}, OpNames={"mul2", "add2", "div", "neg", "sq", "inv"})),
     ],
@@ -59,6 +62,8 @@ GEN = {
         ("oper2x6", dict(MaxLen=6, LeafNames={"xt", "a"}, OpNames={"ddt", "isum", "iprod", "sumk", "int", "mul2"})),
         ("matrix7", dict(MaxLen=7, LeafNames={"a", "b", "n2", "h"}, OpNames={"mat23", "mat32", "mat13", "mat31"})),
         ("float5", dict(MaxLen=5, LeafNames={"f10", "f20", "fh", "fs", "a"}, OpNames={"mul2", "add2", "div", "neg", "sq", "inv", "sqrt"})),
+        ("named5", dict(MaxLen=5, LeafNames={"a", "b", "nm1"},
+                        OpNames={"dbeta", "dgam2", "dabs", "dlog1", "dlog2", "dzeta", "dmax", "mul2", "add2", "sq", "inv"})),
         ("oper5", dict(MaxLen=5, LeafNames={"xt", "a", "nm1"}, OpNames=OPERATORS | {"mul2", "add2", "sq", "inv", "sqrt"})),
         ("oper4", dict(MaxLen=4, LeafNames={"xt", "a", "b", "n2", "mt"},
                        OpNames=OPERATORS | {"mul2", "mul3", "add2", "neg", "div", "sq", "inv", "pm32", "pow", "exp", "sin"})),
@@ -89,6 +94,8 @@ def setup(mode: str):
            25: lambda e: IndexedSum(e, global_index), 26: lambda e: IndexedProduct(e, global_index)}
     fns.update({27: lambda *a: sp.Matrix(2, 3, list(a)), 28: lambda *a: sp.Matrix(3, 2, list(a)),
                 29: lambda *a: sp.Matrix(1, 3, list(a)), 30: lambda *a: sp.Matrix(3, 1, list(a))})
+    fns.update({31: Function("beta"), 32: Function("gamma"), 33: Function("gamma"), 34: Function("Abs"),
+                35: Function("log"), 36: Function("log"), 37: Function("zeta"), 38: Function("Max")})
     csts = {1: sp.pi, 10: sp.Float("1e-10"), 11: sp.Float("2.5e20"), 12: sp.Float("0.5"), 13: sp.Float("8.85e-10")}
     _ENV = dict(mode=mode, sp=sp, syms=syms, fns=fns, csts=csts,
                 render=code_str if mode == "code" else latex_str,
